@@ -342,6 +342,7 @@ func oracle(c Case, o *h.Obs) *h.Fail {
 	}
 	live := make([]bool, len(c.Kinds))
 	shared := make([]bool, len(c.Kinds))
+	strAliased := make([]bool, len(c.Kinds))
 	var hist []string
 	steps := make([]Step, 0, len(c.Inits)+len(c.Steps))
 	for i := range c.Inits {
@@ -377,6 +378,12 @@ func oracle(c Case, o *h.Obs) *h.Fail {
 		kind := r.t.kind
 		if r.plan.skip != "" {
 			class("skip:%s", r.plan.skip)
+			continue
+		}
+		if st.Op == "write" && r.t.cls == "str" && r.t.fld == "" && strAliased[st.T] {
+			// left open: an element store into a string variable that was copied with `w = s`
+			// (anko may keep both names bound to one string header)
+			class("skip:string_store_through_alias")
 			continue
 		}
 		if r.plan.known != "" {
@@ -433,6 +440,16 @@ func oracle(c Case, o *h.Obs) *h.Fail {
 						"%s", failMsg(r.src, "model (%s): %s\nanko: %s", describeTarget(r.t), ank.Describe(w), ank.Describe(got)))
 				}
 			}
+			if st.Op == "in" {
+				switch {
+				case p.readAny:
+					class("in:not_fixed_cross_kind")
+				case p.read.Bool():
+					class("in:true")
+				default:
+					class("in:false")
+				}
+			}
 			if p.apply != nil {
 				dest := p.dest
 				p.apply(func() int {
@@ -465,6 +482,18 @@ func oracle(c Case, o *h.Obs) *h.Fail {
 			if r.dst >= 0 && r.dst != st.T {
 				shared[st.T], shared[r.dst] = true, true
 			}
+			if r.dst >= 0 && m.kinds[r.dst] == "str" {
+				if st.Op == "alias" {
+					if r.dst != st.T {
+						strAliased[st.T], strAliased[r.dst] = true, true
+					}
+				} else {
+					strAliased[r.dst] = false // fresh value from slicing / concatenation
+				}
+			}
+			if st.Op == "new" {
+				strAliased[st.T] = false
+			}
 			if errSeen && (isReadOp(st.Op) || (st.Op == "slice" && r.dst < 0)) {
 				errThenRead = true
 			}
@@ -486,7 +515,7 @@ func oracle(c Case, o *h.Obs) *h.Fail {
 				clause = "changed-on-error"
 			}
 			sig := fmt.Sprintf("C10|%s|%s|%s|%s|%s", clause, opName, kind, d.what, role)
-			if p.known != "" && role == "other" {
+			if p.known != "" {
 				sig = "C10|append-partial-write|" + p.known + "|" + kind
 			}
 			return h.Failf(sig,
